@@ -186,10 +186,14 @@ pub fn render(lines: &[Line], variant: u32, salt: usize) -> Vec<u8> {
             }
             "obj" => {
                 let t = l.t * 100;
+                // every other object with an EVEN sound carries an addition with a sample file name: the file name strips the
+                // NORMAL bit (1) only, so an even sound is still exactly the one written on the line
+                let add = if id % 2 == 0 && (salt + i) % 2 == 0 { [",0:0:0:0:hit.wav", ",1:2:0:60:soft-hitclap2.wav"][(salt / 2 + i) % 2] } else { "" };
                 match l.kind.as_str() {
-                    "C" => format!("{id},192,{t},1,{id}"),
-                    "S" => format!("{id},192,{t},2,{id},L|{}:192,1,100", id + 100),
-                    "P" => format!("{id},192,{t},12,{id},{}", t + 500),
+                    "C" => format!("{id},192,{t},1,{id}{add}"),
+                    "S" if add.is_empty() => format!("{id},192,{t},2,{id},L|{}:192,1,100", id + 100),
+                    "S" => format!("{id},192,{t},2,{id},L|{}:192,1,100,{id}|{id},0:0|0:0{add}", id + 100),
+                    "P" => format!("{id},192,{t},12,{id},{}{add}", t + 500),
                     _ => format!("{id},192,{t},128,{id},{}:0:0:0:0:", t + 300),
                 }
             }
